@@ -98,7 +98,8 @@ def t_protocol(n_rest):
         real_exec = ov['jesse.models.Order.Order.execute']
 
         def exec_spy(i, a, k):
-            trace.append(('execute', list(a), None))
+            # ghost: the price a hook (and a MARKET order it submits) sees while the order executes
+            trace.append(('execute', list(a), W.pos.f.get('current_price')))
             return real_exec(i, a, k)
         ov['jesse.models.Order.Order.execute'] = exec_spy
         h.cover('protocol.pre')
@@ -116,7 +117,8 @@ def t_protocol(n_rest):
                 g = ops.land(g, ops.equal(a_, b_))
             return g
         remaining = Vec(list(c.e))
-        g_cand, g_split, g_sorted = True, True, True
+        g_cand, g_split, g_sorted, g_price = True, True, True, True
+        consumed = None
         pending_sort = None
         for tag, a, r in trace:
             if tag == 'candidates':
@@ -129,8 +131,14 @@ def t_protocol(n_rest):
             elif tag == 'split':
                 g_split = ops.land(g_split, same_candle(a[0], remaining))
                 remaining = Vec(list(r[1].e))
+                consumed = r[0]
             elif tag == 'execute':
                 g_sorted = ops.land(g_sorted, pending_sort is None)
+                # the price seen while the order executes (hooks, MARKET orders they submit) is the close of the part of the
+                # path consumed by this fill - the fill price whenever the order is not priced at the open (split_candle.*)
+                g_price = ops.land(g_price, False if (r is None or consumed is None) else ops.equal(r, consumed.e[2]))
+                consumed = None
+        h.prove(g_price, 'protocol.the-current-price-is-the-close-of-the-consumed-part-while-the-order-executes')
         h.prove(g_cand, 'protocol.candidates-are-taken-from-the-remaining-part-of-the-path')
         h.prove(g_split, 'protocol.each-fill-splits-the-remaining-part-not-the-whole-minute')
         h.prove(g_sorted, 'protocol.two-or-more-candidates-are-sorted-over-the-remaining-part-before-any-fill')
@@ -173,15 +181,28 @@ def t_protocol_chunk(minutes=2):
         real_exec = ov['jesse.models.Order.Order.execute']
 
         def exec_spy(i, a, k):
-            trace.append(('execute', list(a), None))
+            trace.append(('execute', list(a), W.pos.f.get('current_price')))
             return real_exec(i, a, k)
         ov['jesse.models.Order.Order.execute'] = exec_spy
+        real_split = h.repo.find('jesse.services.candle.split_candle')
+
+        def split_spy(i, a, k):
+            ov.pop('jesse.services.candle.split_candle')
+            try:
+                r = i.call(real_split, list(a), k)
+            finally:
+                ov['jesse.services.candle.split_candle'] = split_spy
+            trace.append(('split', list(a), r))
+            return r
+        ov['jesse.services.candle.split_candle'] = split_spy
         h.cover('protocol.chunk.pre')
         out = h.outcome(f'{BM}._simulate_price_change_effect_multiple_candles', chunk, 'Sandbox', 'BTC-USDT')
         h.prove(out.ok, 'protocol.chunk.no-exception', {'raised': out.exc})
         if not out.ok:
             return
         ok = True
+        g_price = True
+        consumed = None
         pending = None
         for tag, a, r in trace:
             if tag == 'candidates':
@@ -189,8 +210,13 @@ def t_protocol_chunk(minutes=2):
             elif tag == 'sort':
                 ok = ok and pending is not None and a[0] is pending
                 pending = None
+            elif tag == 'split':
+                consumed = r[0]
             elif tag == 'execute':
                 ok = ok and pending is None
+                g_price = ops.land(g_price, False if (r is None or consumed is None) else ops.equal(r, consumed.e[2]))
+                consumed = None
+        h.prove(g_price, 'protocol.chunk.the-current-price-is-the-close-of-the-consumed-part-while-the-order-executes')
         h.prove(ok, 'protocol.chunk.two-or-more-candidates-are-sorted-before-any-fill', {'events': [t_[0] for t_ in trace]})
     return t
 
